@@ -51,6 +51,7 @@ type RunConfig struct {
 	Samples         int
 	CrossCheck      bool
 	WallLimitS      int
+	Merge           bool
 	DumpUnknown     string
 }
 
@@ -490,6 +491,7 @@ func cmdRun(args []string) {
 	fs.IntVar(&cfg.TimeoutMs, "timeout", cfg.TimeoutMs, "solver ms per query")
 	fs.IntVar(&cfg.WallLimitS, "wall", cfg.WallLimitS, "wall-clock limit in seconds")
 	fs.BoolVar(&cfg.Verbose, "v", false, "")
+	fs.BoolVar(&cfg.Merge, "merge", false, "if-convert side-effect-free diamonds instead of forking")
 	fs.StringVar(&cfg.SMTLog, "smtlog", "", "")
 	fs.StringVar(&cfg.DumpUnknown, "dumpunknown", "", "file prefix for standalone dumps of queries answered unknown")
 	out := fs.String("out", "", "result file")
